@@ -6,8 +6,10 @@
 #include "pool.hpp"
 #include "spec.hpp"
 
+#include <cstring>
 #include <deque>
 #include <memory>
+#include <new>
 
 namespace e1 {
 
@@ -249,9 +251,22 @@ struct World {
         di.method->specs.push_back(di);
     }
 
+    // Unregistering a definition is running its destructor (that is what
+    // unloading a library does); the record is then re-created in place so
+    // that it can be registered again.
     void unregister_def(std::size_t m, std::size_t d) {
         auto& di = *meths[m].defs[d];
-        di.method->specs.remove(di);
+        auto vp_begin = di.vp_begin;
+        auto vp_end = di.vp_end;
+        auto pf = di.pf;
+        auto next = di.next;
+        di.~definition_info();
+        std::memset(static_cast<void*>(&di), 0, sizeof di);
+        new (&di) detail::definition_info();
+        di.vp_begin = vp_begin;
+        di.vp_end = vp_end;
+        di.pf = pf;
+        di.next = next;
         di.method = nullptr;
     }
 
